@@ -1,7 +1,41 @@
-//! Scenario crate `scn-admin` (chain-level simulation on the chainsim runtime).
+//! Scenario crate `scn-admin`: role table, privileged-instruction twins, names, configuration keys.
 
-pub const PROPERTIES: &[&str] = &[];
+pub mod roles;
 
-pub fn registry(_property: &str) -> Option<simcore::CheckSpec> {
-    None
+use simcore::{CheckSpec, Part};
+
+pub const PROPERTIES: &[&str] = &["C18", "C19", "C35"];
+
+const CHAIN_ASSUMPTIONS: &[&str] = &[
+    "programs run natively on the host, not in the SBF VM: compute budget, stack/heap limits and transaction size are not modelled",
+    "signatures are not verified (a signer is a flag on the account meta); the runtime stub enforces Solana's privilege rules (message-wide signer/writable sets, PDA signing, read-only accounts, lamport conservation, rent exemption)",
+    "a clean batch is evidence over the sampled plans, not a proof",
+];
+
+fn assumptions(extra: &[&str]) -> Vec<String> {
+    CHAIN_ASSUMPTIONS.iter().chain(extra.iter()).map(|s| s.to_string()).collect()
+}
+
+pub fn registry(property: &str) -> Option<CheckSpec> {
+    match property {
+        "C18" => Some(CheckSpec {
+            property: "C18",
+            level: "exploration",
+            parts: vec![Part::new(roles::Roles, 6_000, 200_000)],
+            assumptions: assumptions(&["the reference is a set model (enabled roles, granted pairs, authority, acknowledged restart slot) transcribed from the property statement and the documented instruction semantics"]),
+        }),
+        "C19" => Some(CheckSpec {
+            property: "C19",
+            level: "fault_enumeration",
+            parts: vec![Part::new(roles::Roles, 3_000, 100_000)],
+            assumptions: assumptions(&["a twin proves something only for instructions whose original landed; per-instruction coverage is listed under reach_probes (c19_twin:<instruction>)"]),
+        }),
+        "C35" => Some(CheckSpec {
+            property: "C35",
+            level: "exploration",
+            parts: vec![Part::new(roles::Roles, 4_000, 100_000)],
+            assumptions: assumptions(&[]),
+        }),
+        _ => None,
+    }
 }
